@@ -350,7 +350,7 @@ def run_case(desc):
                 keys.append(f"{mapgen.signature(case)}|{a},{b}|two")
             if sample is None:
                 sample = {"case": mapgen.describe(case), "axis": a, "partitions": [[str(s) for s, _ in p] for p in plist]}
-    return v.result(keys=keys, sample=sample if desc["start"] % 100 == 0 else None)
+    return v.result(evaluations=v.counters.get("partitioned_runs", 0), keys=keys, sample=sample if desc["start"] % 100 == 0 else None)
 
 
 def finalize(agg, tier, seed):
